@@ -62,6 +62,7 @@ func witnesses() []witness {
 					typeDesc{Kind: "object", Name: "B", Ifaces: []string{"J"}, Fields: []fieldDesc{f("y", "Int")}},
 					typeDesc{Kind: "object", Name: "Query", Fields: []fieldDesc{ri, rj, ra, rg}},
 				)
+				d.Additional = d.allTypeNames()
 				return d
 			},
 			chains: [][]chainNode{
@@ -95,6 +96,7 @@ func witnesses() []witness {
 					typeDesc{Kind: "union", Name: "U", Req: []string{"fa"}, Members: []string{"O"}},
 					typeDesc{Kind: "object", Name: "Query", Fields: []fieldDesc{ru, re, rs, ro}},
 				)
+				d.Additional = d.allTypeNames()
 				return d
 			},
 			chains: [][]chainNode{ch("u", "on O", "name"), ch("u", "__typename"), ch("o", "on U", "__typename"), ch("o", "ge"), ch("e"), ch("s")},
@@ -104,6 +106,25 @@ func witnesses() []witness {
 				`{ e(in: {x: V0, n: 1}, e: [V1]) o { ge old } }`,
 				`{ __type(name: "E") { enumValues(includeDeprecated: true) { name } } i: __type(name: "In") { inputFields { name type { name } } } }`,
 			},
+		},
+		{
+			// T needs no feature, but only the gated field Query.g refers to it (the shape of a gated
+			// apifu.Connection, whose PageInfo type is shared and ungated): known finding
+			// orphaned-type-stays-visible
+			name: "orphaned-type", feats: []string{"fa"},
+			make: func() *desc {
+				d := &desc{Query: "Query", Directives: stdDirectives(), Types: scalars()}
+				rg := f("g", "T")
+				rg.Ret, rg.Req = "T", []string{"fa"}
+				d.Types = append(d.Types,
+					typeDesc{Kind: "object", Name: "T", Fields: []fieldDesc{f("n", "Int")}},
+					typeDesc{Kind: "object", Name: "Query", Fields: []fieldDesc{f("ping", "Int"), rg}},
+				)
+				d.Additional = []string{"String", "ID", "Float"}
+				return d
+			},
+			chains: [][]chainNode{ch("g", "n"), ch("on T", "n"), ch("ping")},
+			docs:   []string{`{ __type(name: "T") { name fields { name } } }`, `{ __schema { types { name } } }`},
 		},
 	}
 }
